@@ -37,7 +37,8 @@ theorem globUses_retypeIn (ge : Core3.GEnv) (f : Core3.Func) : Core3.globUses (C
 theorem translateIn_shape (ge : Core3.GEnv) (f g : Core3.Func) (h : Core3.translateIn ge f = some g) :
     g.name = f.name ∧ ∀ n ∈ Core3.globUses g, n ∈ ge.map (·.1) := by
   obtain ⟨l, hl, _, _, _, hg⟩ := C05.core3_result_is_closed_in ge f g h
-  unfold Core3.translateIn at h
+  have h := (Core3.translateIn_core _ _ _ h).1
+  unfold Core3.translateCore at h
   rw [hl] at h
   simp only at h
   split at h
